@@ -231,3 +231,324 @@ fn c08_init() {
         }
     }
 }
+
+// =================================================================================================
+// C11 / C12 (I/O stubs shared with the vanilla harness file)
+// =================================================================================================
+use crate::vanilla_header::verif_h::{AnyReader, AnyWriter};
+use std::io::{self, ErrorKind, Read, Write};
+
+fn any_enc() -> EncrypterHalf {
+    let (key, index, prev) = any_state();
+    EncrypterHalf { key, index, previous_value: prev }
+}
+fn any_dec() -> DecrypterHalf {
+    let (key, index, prev) = any_state();
+    DecrypterHalf { key, index, previous_value: prev }
+}
+fn enc_same(a: &EncrypterHalf, b: &EncrypterHalf) -> bool {
+    key_eq(&a.key, &b.key) && a.index == b.index && a.previous_value == b.previous_value
+}
+fn dec_same(a: &DecrypterHalf, b: &DecrypterHalf) -> bool {
+    key_eq(&a.key, &b.key) && a.index == b.index && a.previous_value == b.previous_value
+}
+/// a combined object in an arbitrary reachable state: both halves carry the same key
+fn any_crypto() -> HeaderCrypto {
+    let e = any_enc();
+    let mut d = any_dec();
+    d.key = e.key;
+    HeaderCrypto { decrypt: d, encrypt: e }
+}
+
+// =================================================================================================
+// C11
+// =================================================================================================
+
+/// C11: typed helpers and facade methods == raw operation on the wire layout, same post-state.
+#[kani::proof]
+#[kani::unwind(42)]
+fn c11_tbc_typed_helpers() {
+    let h0 = any_crypto();
+    let size: u16 = kani::any();
+    let op16: u16 = kani::any();
+    let op32: u32 = kani::any();
+    let sz = size.to_be_bytes();
+    let o16 = op16.to_le_bytes();
+    let o32 = op32.to_le_bytes();
+
+    // server header, encrypt side: half, facade, accessor
+    let mut raw_e = h0.encrypt.clone();
+    let mut raw = [sz[0], sz[1], o16[0], o16[1]];
+    raw_e.encrypt(&mut raw);
+    let mut e1 = h0.encrypt.clone();
+    let a = e1.encrypt_server_header(size, op16);
+    assert!(a == raw, "C11: encrypt_server_header differs from raw encrypt of the wire layout");
+    assert!(enc_same(&e1, &raw_e), "C11: encrypt_server_header leaves another state than raw encrypt");
+    let mut f = h0.clone();
+    let b = f.encrypt_server_header(size, op16);
+    assert!(b == raw && enc_same(&f.encrypt, &raw_e) && dec_same(&f.decrypt, &h0.decrypt), "C11: facade encrypt_server_header differs");
+    let mut f = h0.clone();
+    let c = f.encrypter().encrypt_server_header(size, op16);
+    assert!(c == raw && enc_same(&f.encrypt, &raw_e), "C11: encrypter() accessor is not the encrypt half");
+    let mut f = h0.clone();
+    let mut d = [sz[0], sz[1], o16[0], o16[1]];
+    f.encrypt(&mut d);
+    assert!(d == raw && enc_same(&f.encrypt, &raw_e) && dec_same(&f.decrypt, &h0.decrypt), "C11: facade encrypt differs from the half");
+
+    // client header, encrypt side
+    let mut raw_e6 = h0.encrypt.clone();
+    let mut raw6 = [sz[0], sz[1], o32[0], o32[1], o32[2], o32[3]];
+    raw_e6.encrypt(&mut raw6);
+    let mut e2 = h0.encrypt.clone();
+    assert!(e2.encrypt_client_header(size, op32) == raw6 && enc_same(&e2, &raw_e6), "C11: encrypt_client_header differs from raw");
+    let mut f = h0.clone();
+    assert!(f.encrypt_client_header(size, op32) == raw6 && enc_same(&f.encrypt, &raw_e6) && dec_same(&f.decrypt, &h0.decrypt), "C11: facade encrypt_client_header differs");
+
+    // decrypt side
+    let wire4: [u8; 4] = kani::any();
+    let wire6: [u8; 6] = kani::any();
+    let mut raw_d = h0.decrypt.clone();
+    let mut p4 = wire4;
+    raw_d.decrypt(&mut p4);
+    let exp4 = ServerHeader { size: u16::from_be_bytes([p4[0], p4[1]]), opcode: u16::from_le_bytes([p4[2], p4[3]]) };
+    let mut d1 = h0.decrypt.clone();
+    assert!(d1.decrypt_server_header(wire4) == exp4 && dec_same(&d1, &raw_d), "C11: decrypt_server_header differs from raw");
+    let mut f = h0.clone();
+    assert!(f.decrypt_server_header(wire4) == exp4 && dec_same(&f.decrypt, &raw_d) && enc_same(&f.encrypt, &h0.encrypt), "C11: facade decrypt_server_header differs");
+    let mut f = h0.clone();
+    assert!(f.decrypter().decrypt_server_header(wire4) == exp4 && dec_same(&f.decrypt, &raw_d), "C11: decrypter() accessor is not the decrypt half");
+    let mut f = h0.clone();
+    let mut q4 = wire4;
+    f.decrypt(&mut q4);
+    assert!(q4 == p4 && dec_same(&f.decrypt, &raw_d) && enc_same(&f.encrypt, &h0.encrypt), "C11: facade decrypt differs from the half");
+
+    let mut raw_d6 = h0.decrypt.clone();
+    let mut p6 = wire6;
+    raw_d6.decrypt(&mut p6);
+    let exp6 = ClientHeader { size: u16::from_be_bytes([p6[0], p6[1]]), opcode: u32::from_le_bytes([p6[2], p6[3], p6[4], p6[5]]) };
+    let mut d2 = h0.decrypt.clone();
+    assert!(d2.decrypt_client_header(wire6) == exp6 && dec_same(&d2, &raw_d6), "C11: decrypt_client_header differs from raw");
+    let mut f = h0.clone();
+    assert!(f.decrypt_client_header(wire6) == exp6 && dec_same(&f.decrypt, &raw_d6) && enc_same(&f.encrypt, &h0.encrypt), "C11: facade decrypt_client_header differs");
+
+    // layout constructors
+    assert!(ServerHeader::from_array(p4) == exp4 && ClientHeader::from_array(p6) == exp6, "C11: layout constructors differ from the wire layout");
+    kani::cover!(size == 0x0102 && op32 == 0x0A0B0C0D, "asymmetric header");
+}
+
+/// a combined object at a concrete key position shortly before the wrap (the I/O plumbing does not
+/// depend on the position; position generality is the step lemma of C07/C08)
+fn any_crypto_io() -> HeaderCrypto {
+    let mut h = any_crypto();
+    h.decrypt.index = (KL - 3) as u8;
+    h.encrypt.index = (KL - 2) as u8;
+    h
+}
+
+/// C11: read wrappers under arbitrary fragmentation, interruptions and failures.
+/// N = 6: client header, N = 4: server header; `facade`: through HeaderCrypto. Returns (ok, reader).
+fn read_wrapper<const N: usize>(facade: bool) -> (bool, AnyReader) {
+    let h0 = any_crypto_io();
+    let mut rd = AnyReader::new();
+    let mut h = h0.clone();
+    // raw reference on the first N bytes of the stream
+    let mut raw_d = h0.decrypt.clone();
+    let mut p = [rd.stream[0], rd.stream[1], rd.stream[2], rd.stream[3], rd.stream[4], rd.stream[5]];
+    raw_d.decrypt(&mut p[..N]);
+    let size = u16::from_be_bytes([p[0], p[1]]);
+    let (ok, got_size, got_opcode) = if N == 6 {
+        let r = if facade { h.read_and_decrypt_client_header(&mut rd) } else { h.decrypt.read_and_decrypt_client_header(&mut rd) };
+        match r {
+            Ok(hd) => (true, hd.size, hd.opcode),
+            Err(e) => {
+                core::mem::forget(e);
+                (false, 0, 0)
+            }
+        }
+    } else {
+        let r = if facade { h.read_and_decrypt_server_header(&mut rd) } else { h.decrypt.read_and_decrypt_server_header(&mut rd) };
+        match r {
+            Ok(hd) => (true, hd.size, hd.opcode as u32),
+            Err(e) => {
+                core::mem::forget(e);
+                (false, 0, 0)
+            }
+        }
+    };
+    if ok {
+        let opcode = if N == 6 { u32::from_le_bytes([p[2], p[3], p[4], p[5]]) } else { u16::from_le_bytes([p[2], p[3]]) as u32 };
+        assert!(!rd.failed && rd.pos == N, "C11: header returned although the reader failed or bytes are missing");
+        assert!(got_size == size && got_opcode == opcode, "C11: read wrapper differs from raw decrypt of the delivered bytes");
+        assert!(dec_same(&h.decrypt, &raw_d), "C11: read wrapper leaves another state than raw decrypt");
+    } else {
+        assert!(rd.failed, "C11: read wrapper failed although the reader did not");
+        assert!(dec_same(&h.decrypt, &h0.decrypt), "C11: failed read changed the decrypter");
+    }
+    assert!(enc_same(&h.encrypt, &h0.encrypt), "C11: reading changed the encrypter");
+    (ok, rd)
+}
+
+fn read_covers<const N: usize>(ok: bool, rd: &AnyReader) {
+    kani::cover!(ok && rd.fragments >= 3 && rd.interrupted >= 1, "three fragments and an interruption");
+    kani::cover!(!ok && rd.pos == N - 1, "failure after all but one byte");
+    kani::cover!(!ok && rd.pos == 0, "failure before the first byte");
+}
+
+#[kani::proof]
+#[kani::unwind(42)]
+fn c11_tbc_read_client() {
+    let (ok, rd) = read_wrapper::<6>(false);
+    read_covers::<6>(ok, &rd);
+}
+#[kani::proof]
+#[kani::unwind(42)]
+fn c11_tbc_read_client_facade() {
+    let (ok, rd) = read_wrapper::<6>(true);
+    read_covers::<6>(ok, &rd);
+}
+#[kani::proof]
+#[kani::unwind(42)]
+fn c11_tbc_read_server() {
+    let (ok, rd) = read_wrapper::<4>(false);
+    read_covers::<4>(ok, &rd);
+}
+#[kani::proof]
+#[kani::unwind(42)]
+fn c11_tbc_read_server_facade() {
+    let (ok, rd) = read_wrapper::<4>(true);
+    read_covers::<4>(ok, &rd);
+}
+
+/// C11: write wrappers: bytes written == encrypted header; a failing writer's error is reported.
+fn write_wrapper<const N: usize>(facade: bool) -> (bool, AnyWriter) {
+    let h0 = any_crypto_io();
+    let size: u16 = kani::any();
+    let op16: u16 = kani::any();
+    let op32: u32 = kani::any();
+    let mut wr = AnyWriter::new();
+    let mut h = h0.clone();
+    let mut ref_e = h0.encrypt.clone();
+    let mut exp = [0u8; 6];
+    if N == 6 {
+        let x = ref_e.encrypt_client_header(size, op32);
+        let mut i = 0;
+        while i < 6 {
+            exp[i] = x[i];
+            i += 1;
+        }
+    } else {
+        let x = ref_e.encrypt_server_header(size, op16);
+        let mut i = 0;
+        while i < 4 {
+            exp[i] = x[i];
+            i += 1;
+        }
+    }
+    let r = if N == 6 {
+        if facade { h.write_encrypted_client_header(&mut wr, size, op32) } else { h.encrypt.write_encrypted_client_header(&mut wr, size, op32) }
+    } else if facade {
+        h.write_encrypted_server_header(&mut wr, size, op16)
+    } else {
+        h.encrypt.write_encrypted_server_header(&mut wr, size, op16)
+    };
+    let ok = match r {
+        Ok(()) => true,
+        Err(e) => {
+            core::mem::forget(e);
+            false
+        }
+    };
+    if ok {
+        assert!(!wr.failed, "C11: a failing writer's error was swallowed");
+        assert!(wr.pos == N, "C11: write wrapper reported success without writing the whole header");
+    } else {
+        assert!(wr.failed, "C11: write wrapper failed although the writer did not");
+    }
+    // the bytes that reached the sink are a prefix of (on success: all of) the encrypted header
+    let mut i = 0;
+    while i < 6 {
+        if i < wr.pos {
+            assert!(wr.sink[i] == exp[i], "C11: bytes written differ from the encrypted header");
+        }
+        i += 1;
+    }
+    assert!(wr.pos <= N, "C11: more bytes written than the header has");
+    assert!(enc_same(&h.encrypt, &ref_e), "C11: write wrapper leaves another encrypter state than the typed helper");
+    assert!(dec_same(&h.decrypt, &h0.decrypt), "C11: writing changed the decrypter");
+    (ok, wr)
+}
+
+fn write_covers<const N: usize>(ok: bool, wr: &AnyWriter) {
+    kani::cover!(ok && wr.calls >= 3, "header written in three or more calls");
+    kani::cover!(!ok && wr.pos == N - 1, "writer failed before the last byte");
+}
+
+#[kani::proof]
+#[kani::unwind(42)]
+fn c11_tbc_write_client() {
+    let (ok, wr) = write_wrapper::<6>(false);
+    write_covers::<6>(ok, &wr);
+}
+#[kani::proof]
+#[kani::unwind(42)]
+fn c11_tbc_write_client_facade() {
+    let (ok, wr) = write_wrapper::<6>(true);
+    write_covers::<6>(ok, &wr);
+}
+#[kani::proof]
+#[kani::unwind(42)]
+fn c11_tbc_write_server() {
+    let (ok, wr) = write_wrapper::<4>(false);
+    write_covers::<4>(ok, &wr);
+}
+#[kani::proof]
+#[kani::unwind(42)]
+fn c11_tbc_write_server_facade() {
+    let (ok, wr) = write_wrapper::<4>(true);
+    write_covers::<4>(ok, &wr);
+}
+
+// =================================================================================================
+// C12
+// =================================================================================================
+
+/// C12: encrypting never touches the decrypt half and gives what a lone half gives, and vice versa.
+#[kani::proof]
+#[kani::unwind(42)]
+fn c12_tbc_frame() {
+    let h0 = any_crypto();
+    let data: [u8; 6] = kani::any();
+    let n: usize = kani::any();
+    kani::assume(n <= 6);
+    let mut h = h0.clone();
+    let mut a = data;
+    h.encrypt(&mut a[..n]);
+    let mut lone = h0.encrypt.clone();
+    let mut b = data;
+    lone.encrypt(&mut b[..n]);
+    assert!(a == b, "C12: combined object encrypts differently from a lone half");
+    assert!(enc_same(&h.encrypt, &lone), "C12: combined object's encrypt half differs from a lone half");
+    assert!(dec_same(&h.decrypt, &h0.decrypt), "C12: encrypting changed the decrypt half");
+    let mut h = h0.clone();
+    let mut a = data;
+    h.decrypt(&mut a[..n]);
+    let mut lone = h0.decrypt.clone();
+    let mut b = data;
+    lone.decrypt(&mut b[..n]);
+    assert!(a == b, "C12: combined object decrypts differently from a lone half");
+    assert!(dec_same(&h.decrypt, &lone), "C12: combined object's decrypt half differs from a lone half");
+    assert!(enc_same(&h.encrypt, &h0.encrypt), "C12: decrypting changed the encrypt half");
+    kani::cover!(n == 6, "six bytes");
+}
+
+/// C12 (TBC): split and clone lose nothing (TBC has no unsplit).
+#[kani::proof]
+#[kani::unwind(42)]
+fn c12_tbc_split() {
+    let h0 = any_crypto();
+    let c = h0.clone();
+    assert!(c == h0 && enc_same(&c.encrypt, &h0.encrypt) && dec_same(&c.decrypt, &h0.decrypt), "C12: clone differs");
+    let (e, d) = c.split();
+    assert!(enc_same(&e, &h0.encrypt) && dec_same(&d, &h0.decrypt), "C12: split changed a half");
+    kani::cover!(h0.encrypt.index != h0.decrypt.index, "halves at different positions");
+}
